@@ -198,6 +198,7 @@ pub fn facts_of(case: &Case, finding: &Finding) -> J {
         f.set("quantified_nullable", J::Bool(a.has_quantified_nullable()));
         f.set("looping_nullable", J::Bool(a.has_looping_nullable()));
         f.set("group_in_loop", J::Bool(a.has_group_in_loop()));
+        f.set("min0_variable_greedy_repeat", J::Bool(a.has_min0_variable_greedy_repeat()));
         f.set("group_in_quant", J::Bool(a.has_group_in_quant()));
         f.set("groups", J::u(a.count_groups() as u64));
         f.set("backref", J::Bool(a.has_backref()));
@@ -212,6 +213,7 @@ pub fn facts_of(case: &Case, finding: &Finding) -> J {
         f.set("quantified_nullable2", J::Bool(a2.has_quantified_nullable()));
         f.set("looping_nullable2", J::Bool(a2.has_looping_nullable()));
         f.set("group_in_loop2", J::Bool(a2.has_group_in_loop()));
+        f.set("min0_variable_greedy_repeat2", J::Bool(a2.has_min0_variable_greedy_repeat()));
     }
     f.set("pattern_len", J::u(case.pattern.chars().count() as u64));
     f.set("flags", J::s(&case.flags));
